@@ -19,7 +19,7 @@ func init() {
 		Rule: "case = one key (0..12 characters from all Unicode planes, ASCII symbols, controls, DEL, C1, U+FFFD/U+FFFF, astral, escape-looking sequences such as \\n, \\u0041, lone " +
 			"surrogates as \\uXXXX text) stored as member k -> \"HIT\" of an object together with near-miss sibling keys (k+x, \\k, k\\, quoted k, k without/with doubled backslashes, " +
 			"k minus first/last character, k with one inner character deleted / doubled, case variants); queried as $['k'], $[\"k\"], the same with every character written as a \\uXXXX escape (upper-case / lower-case / mixed hex, surrogate pairs), for keys containing U+FFFD also with every U+FFFD written as an UNPAIRED surrogate escape (root, after `..`, nested), $.k with every symbol backslash-escaped (non-empty keys without control characters), k with the root " +
-			"omitted, $..k, $..['k'], $[?(@['k']=='HIT')], $['k','k'], nested $.o['k']; judged: exactly [\"HIT\"] (direct map lookup is the model) for every spelling; " +
+			"omitted, $..k, $..['k'], $[?(@['k']=='HIT')], $['k','k'], nested $.o['k'], $..['k','k'] and $..['k'] on a document with arrays on the way; judged: exactly [\"HIT\"] (direct map lookup is the model) for every spelling; " +
 			"non-trivial = the key contains a non-alphanumeric character; distinct = distinct keys",
 		Assumptions: []string{"keys are valid UTF-8 (JSON object keys)", "bracket spelling uses JSON-style escaping: the quote, backslash, \\b\\f\\n\\r\\t and \\u00XX for other control characters"},
 		Plan: func(tier string, seed int64) *harness.Plan {
@@ -28,7 +28,7 @@ func init() {
 				Setup:    func(c *harness.Ctx) { hooksOn() },
 				Run:      runC16,
 				Finish:   reportHooks,
-				Required: []string{"key:empty", "key:control", "key:astral", "key:backslash", "key:quote", "spelling:dot", "spelling:single", "spelling:double", "spelling:recursive-dot", "spelling:filter", "spelling:rootless", "spelling:hex-upper", "spelling:hex-lower", "spelling:hex-mixed", "spelling:lone-surrogate"},
+				Required: []string{"key:empty", "key:control", "key:astral", "key:backslash", "key:quote", "spelling:dot", "spelling:single", "spelling:double", "spelling:recursive-dot", "spelling:filter", "spelling:rootless", "spelling:hex-upper", "spelling:hex-lower", "spelling:hex-mixed", "spelling:lone-surrogate", "spelling:recursive-multi-through-arrays"},
 			}
 		},
 	})
@@ -133,6 +133,13 @@ func runC16(c *harness.Ctx, k int) {
 			fdoc = append(fdoc, map[string]interface{}{s: "HIT", label: fmt.Sprintf("no%d", i)})
 		}
 	}
+	// the same selectors met by ARRAYS on the way: a name never selects from an array, whatever the name looks like (`*`, `0`, `-1`,
+	// `length` ...); the descent passes through an array and finds the key again in an object inside it
+	mixed := map[string]interface{}{key: "HIT", label: []interface{}{"x", "y", map[string]interface{}{key: "HIT2"}}}
+	qs = append(qs,
+		q{"recursive-multi-through-arrays", render(&spec.Path{Root: '$', Steps: []spec.Step{{Kind: spec.KRec}, {Kind: spec.KMulti, Items: []spec.MItem{{Key: key}, {Key: key}}}}}, r.Intn(2) == 0), mixed, []interface{}{"HIT", "HIT", "HIT2", "HIT2"}},
+		q{"recursive-bracket-through-arrays", render(&spec.Path{Root: '$', Steps: []spec.Step{{Kind: spec.KRec}, nameStep(true)}}, r.Intn(2) == 0), mixed, []interface{}{"HIT", "HIT2"}},
+	)
 	fq := &spec.Query{Op: spec.QCmp, Cmp: "==", LO: spec.Operand{P: &spec.Path{Root: '@', Steps: []spec.Step{nameStep(true)}}}, RO: gen.StrLit("HIT", false)}
 	qs = append(qs, q{"filter", render(&spec.Path{Root: '$', Steps: []spec.Step{{Kind: spec.KFilter, Q: fq}, {Kind: spec.KName, Key: label}}}, r.Intn(2) == 0), fdoc, []interface{}{"yes"}})
 	if spec.DotOK(key) {
